@@ -459,7 +459,7 @@ func (z *ZodSlice[T, R]) validateForEngine(
 			if err := validateElement(elem, schema, ctx); err != nil {
 				if zodErr, ok := errors.AsType[*issues.ZodError](err); ok {
 					for _, issue := range zodErr.Issues {
-						errs = append(errs, issues.ConvertZodIssueToRawWithProperties(issue, []any{i}))
+						errs = append(errs, issues.ConvertZodIssueToRawWithPrependedPath(issue, []any{i}))
 					}
 				} else {
 					raw := issues.CreateIssue(core.Custom, err.Error(), nil, elem)
